@@ -1,6 +1,8 @@
 #!/venv/bin/python
 """Run every installed seed (seeded/<id>/) against its property (and the properties listed in
-meta.also_breaks), write seeded/RESULTS.json: {seed: {prop: verdict}}.   usage: seedmatrix.py [seed ...]"""
+meta.also_breaks), write seeded/RESULTS.json: {seed: {prop: verdict}}.
+usage: seedmatrix.py [--out FILE] [seed ...]      (--out: write to FILE instead, for parallel shards;
+       seedmatrix.py --merge FILE...               merges shard files into seeded/RESULTS.json)"""
 import json, os, subprocess, sys
 
 VERIF = os.path.dirname(os.path.dirname(os.path.abspath(__file__)))
@@ -8,8 +10,21 @@ SD = os.path.join(VERIF, "seeded")
 
 
 def main():
+    args = sys.argv[1:]
+    if args and args[0] == "--merge":
+        rp = os.path.join(SD, "RESULTS.json")
+        res = json.load(open(rp)) if os.path.exists(rp) else {}
+        for f in args[1:]:
+            res.update(json.load(open(f)))
+        json.dump(res, open(rp, "w"), indent=1, sort_keys=True)
+        print("merged", len(res), "seeds")
+        return
+    out_path = None
+    if args and args[0] == "--out":
+        out_path, args = args[1], args[2:]
+    sys.argv[1:] = args
     seeds = sys.argv[1:] or sorted(d for d in os.listdir(SD) if os.path.isdir(os.path.join(SD, d)))
-    rp = os.path.join(SD, "RESULTS.json")
+    rp = out_path or os.path.join(SD, "RESULTS.json")
     res = json.load(open(rp)) if os.path.exists(rp) else {}
     for s in seeds:
         d = os.path.join(SD, s)
